@@ -7,7 +7,7 @@ from . import shared
 from ..astutil import assignments_to, iter_stmts
 from ..cfg import GENERIC, handler_classes, match_handler, is_subclass
 from ..dataflow import UNASSIGNED, UNKNOWN, classify_enum, enum_member, propagate
-from ..loader import parent
+from ..loader import parent, ancestors
 
 UNIT = "engine/phases/unit/__init__.py"
 UNIT_EX = "engine/phases/unit/_executor.py"
@@ -802,5 +802,68 @@ def o10_drain(chk: Check) -> None:
     shared.drain_before_leave_rule(chk, "C05.O10")
 
 
+def o11_failure_with_its_request(chk: Check) -> None:
+    from . import shared
+
+    shared.failure_request_ids_rule(chk, "C05.O11")
+
+
+def o12_limit_is_not_an_interrupt(chk: Check) -> None:
+    chk.rule("C05.O12", "CAUSE-DISCRIMINATION(KeyboardInterrupt in the stateful loop): the state machine's `step` stops the run by raising KeyboardInterrupt whenever `has_to_stop` holds, i.e. for a user's interrupt AND for a reached --max-failures limit; the loop's handler may therefore call the suite INTERRUPTED (a status that leaves the exit code at 0) only when it knows the failure limit is not the cause - otherwise a run that was never interrupted ends with its failure displayed, the phase `interrupted` and exit code 0 (a check that crashes on the response that reached the limit makes Hypothesis replay the example, `step` then raises KeyboardInterrupt)", floor=2)
+    P = chk.project
+    cands = [f for f in P.module(ST_EX).functions.values() if not isinstance(f.node, ast.Lambda) and f.parent is None and any(isinstance(c, ast.Call) and last_attr(c) == "run" and "StateMachine" in unparse(c.func) for c in body_calls(f))]
+    if not cands:
+        raise Undecided("the function that runs the state machine was not found")
+    loop = cands[0]
+    # producers: raise KeyboardInterrupt under a guard
+    coarse = []
+    for fn in P.module(ST_EX).functions.values():
+        if isinstance(fn.node, ast.Lambda):
+            continue
+        for r in walk_body(fn.node):
+            if isinstance(r, ast.Raise) and r.exc is not None and unparse(r.exc).startswith("KeyboardInterrupt"):
+                par = parent(r)
+                guard = unparse(par.test) if isinstance(par, ast.If) else "?"
+                coarse.append((fn, r, guard))
+    if not coarse:
+        chk.ok("C05.O12", loop, "no KeyboardInterrupt is raised by the state machine itself", "", loop.loc())
+        return
+    needs = False
+    for fn, r, guard in coarse:
+        precise = "is_interrupted" in guard and "has_to_stop" not in guard
+        chk.ok("C05.O12", fn, f"{fn.qualname.partition(':')[2]}: `raise KeyboardInterrupt` under `{guard}`", "user interrupt only" if precise else "also raised for the failure limit", fn.loc(r))
+        needs = needs or not precise
+    g = cfg_of(loop)
+    sites = [a for a in walk_body(loop.node) if isinstance(a, ast.Assign) and unparse(a.value).endswith("Status.INTERRUPTED") and any(isinstance(h, ast.ExceptHandler) and "KeyboardInterrupt" in handler_classes(h) for h in ancestors(a))]
+    if not sites:
+        chk.undecided("C05.O12", loop, "INTERRUPTED assigned in the KeyboardInterrupt handler", "assignment not found", loop.loc())
+        return
+    for a in sites:
+        construct = f"`{unparse(a, 50)}` in the KeyboardInterrupt handler only for a user's interrupt"
+        if not needs:
+            chk.ok("C05.O12", loop, construct, "the producers raise for user interrupts only", loop.loc(a))
+            continue
+        facts = known_conditions(g, g.stmt_nodes_containing(a))
+        lim = next((v for k, v in facts.items() if k.endswith("has_reached_the_failure_limit")), None)
+        intr = next((v for k, v in facts.items() if k.endswith("is_interrupted")), None)
+        excluded = lim is False or intr is True
+        if not excluded:
+            # guard clause: `if limit and not interrupted: <FAILURE>; break` in front - the assignment lies on the false edge
+            nodes = list(g.stmt_nodes_containing(a))
+            for t in g.live():
+                if t.kind != "test" or t.ast is None:
+                    continue
+                lits = literals_of(t.ast, True)  # type: ignore[arg-type]
+                if lits and any(k.endswith("has_reached_the_failure_limit") and v is True for k, v in lits) and all((k.endswith("has_reached_the_failure_limit") and v is True) or (k.endswith("is_interrupted") and v is False) for k, v in lits):
+                    if nodes and all(g.dominated_by_edge(n_, t.id, "false") for n_ in nodes):
+                        excluded = True
+        if excluded:
+            chk.ok("C05.O12", loop, construct, "the failure limit is excluded on this path", loop.loc(a))
+        else:
+            chk.violation("C05.O12", loop, construct,
+                          "the handler cannot tell the two causes apart: when --max-failures is reached and the example is run again (a later check crashed on the same response, shrinking), `step` raises KeyboardInterrupt, the suite and the phase end INTERRUPTED and the exit code stays 0 although a failure was found and displayed and nobody interrupted the run",
+                          loop.loc(a))
+
+
 def rules(tier: str) -> list:  # type: ignore[type-arg]
-    return [o1_thread_targets, o2_run_test_ladder, o3_failure_recording, o3b_run_checks, o4_status_folding, o5_exit_code, o6_marks, o7_plumbing, o8_statistic_accumulates, o9_failure_counter_sites, o10_drain, rfwd_forwarding]
+    return [o1_thread_targets, o2_run_test_ladder, o3_failure_recording, o3b_run_checks, o4_status_folding, o5_exit_code, o6_marks, o7_plumbing, o8_statistic_accumulates, o9_failure_counter_sites, o10_drain, o11_failure_with_its_request, o12_limit_is_not_an_interrupt, rfwd_forwarding]
